@@ -20,6 +20,7 @@ MInit(c) ==
    open |-> <<>>,              \* thread -> id of the call in progress (function)
    lg |-> <<>>,                \* logger name -> [sinks, lvl, valid, sysclock]
    sk |-> <<>>,                \* sink name -> [lvl, deny, denyall, written, flushedTo, alive, held, failing]
+   btdue |-> {},               \* backtrace statements (stored, then covered by a completed flush_backtrace) that must be written
    getseen |-> <<>>,           \* thread -> was the logger it looks up registered when get_logger() was called
    need |-> <<>>,              \* thread -> ids that must be written and flushed when its flush_log returns
    lastTs |-> 0, anyLate |-> FALSE,
@@ -111,7 +112,7 @@ EWrite(m, e) ==
       known == e.id \in DOMAIN m.st
       s == IF known THEN m.st[e.id] ELSE [t |-> "", lg |-> "", lvl |-> 0, kind |-> "", acc |-> -3, ts |-> 0, late |-> FALSE, sinks |-> <<>>, sys |-> FALSE, committed |-> FALSE]
       dup == e.id \in Range(k.written)
-      sameThreadLater == \E j \in Range(k.written) : j \in DOMAIN m.st /\ m.st[j].t = s.t /\ j > e.id
+      sameThreadLater == e.lvl # 9 /\ \E j \in Range(k.written) : j \in DOMAIN m.st /\ m.st[j].t = s.t /\ j > e.id /\ m.st[j].lvl # 9
       nw == k.nw + 1
       thr == e.thr             \* this write_log call threw (scripted fault, observed by the recording sink)
       m0 == [m EXCEPT !.sk[e.s].nw = nw,
@@ -150,6 +151,7 @@ ESinkFlush(m, e) ==
 Deliverable(m, id, sname) ==
   LET s == m.st[id] IN
   /\ s.acc = 1 /\ id \notin m.faulty /\ sname \in Range(s.sinks) /\ ShouldReach(m, id, sname)
+  /\ (s.lvl = 9 => id \in m.btdue)
   /\ id \notin m.sk[sname].lost /\ id \notin m.sk[sname].exempt
   \* a throwing write of an EARLIER sink of the same logger may also lose the statement for the sinks after it (C10)
   /\ ~\E j \in 1..Len(s.sinks) : j < IdxOf(s.sinks, sname) /\ id \in m.sk[s.sinks[j]].lost
@@ -166,11 +168,12 @@ EFlushCall(m, e) ==
   [m EXCEPT !.need = Upd(m.need, e.t, own \cup others)]
 
 EFlushRet(m, e) ==
-  LET ids == IF Has(m.need, e.t) THEN m.need[e.t] ELSE {} IN
-  Check(m, "ok06",
-        \A id \in ids : \A sname \in Range(m.st[id].sinks) :
-          (Deliverable(m, id, sname) /\ m.sk[sname].tf = {}) => Flushed(m, id, sname),
-        "flush_log returned before an earlier statement was written and flushed")
+  LET ids == IF Has(m.need, e.t) THEN m.need[e.t] ELSE {}
+      cond == \A id \in ids : \A sname \in Range(m.st[id].sinks) :
+                (Deliverable(m, id, sname) /\ m.sk[sname].tf = {}) => Flushed(m, id, sname) IN
+  \* C06; and C10: a sink whose flush throws must not keep the other sinks from being flushed
+  Check(Check(m, "ok06", cond, "flush_log returned before an earlier statement was written and flushed"),
+        "ok10", cond, "flush_log returned although a healthy sink was not flushed (another sink's flush threw)")
 
 \* the destination file of a real FileSink read immediately after flush_log() returned (sink still open): everything the
 \* flush promised and that goes to this file sink can be read from it
@@ -178,6 +181,11 @@ EFileRead(m, e) ==
   LET ids == IF Has(m.need, e.t) THEN m.need[e.t] ELSE {} IN
   Check(m, "ok06", \A id \in ids : (m.st[id].acc = 1 /\ id \notin m.faulty /\ e.s \in Range(m.st[id].fsinks)) => id \in Range(e.ids),
         "flush_log returned but an earlier statement cannot be read from the file sink's file")
+
+\* flush_backtrace() returned (the request is a control event: never discarded, C08): every backtrace statement the same
+\* thread stored through that logger before is due (the driver initialises a capacity larger than their number)
+EFlushBt(m, e) ==
+  [m EXCEPT !.btdue = m.btdue \cup {id \in DOMAIN m.st : m.st[id].t = e.t /\ m.st[id].lg = e.lg /\ m.st[id].lvl = 9 /\ m.st[id].acc = 1}]
 
 ENotify(m, e) ==
   LET m1 == [m EXCEPT !.reported = IF e.cls = "dropped" THEN m.reported + e.n ELSE m.reported,
@@ -284,6 +292,7 @@ MStep(m, e) ==
     [] e.k = "sflush" -> ESinkFlush(m, e)
     [] e.k = "flushcall" -> EFlushCall(m, e)
     [] e.k = "flushret" -> EFlushRet(m, e)
+    [] e.k = "flushbt" -> EFlushBt(m, e)
     [] e.k = "fileread" -> EFileRead(m, e)
     [] e.k = "notify" -> ENotify(m, e)
     [] e.k = "quiescent" -> EQuiescent(m, e)
